@@ -240,6 +240,7 @@ def _uf_blob(tag, key, n, meta=None):
     cache = e.tags.setdefault('uf_' + tag, {})
     if key not in cache:
         b = rope.Blob('%s%d' % (tag, len(cache) + 1), rope._zi(n), meta=dict(meta or {}))
+        b.meta['uf'] = tag
         cache[key] = b
     b = cache[key]
     return rope.mk([('view', b, z3.IntVal(0), rope._zi(n))])
@@ -293,7 +294,11 @@ class HKDF:
 class Scrypt:
     def __init__(self, salt, length, n, r, p, backend=None):
         self.salt = _as_bytes(salt, 'salt')
-        if bool(n < 2) or bool((n & (n - 1)) != 0):
+        if core.is_sym(n):
+            pow2 = core.Or(*[n == (1 << k) for k in range(1, 64)])
+        else:
+            pow2 = n >= 2 and (n & (n - 1)) == 0
+        if not bool(pow2):
             raise ValueError('n must be greater than 1 and be a power of 2.')
         if bool(r < 1):
             raise ValueError('r must be greater than or equal to 1.')
@@ -308,9 +313,6 @@ class Scrypt:
             raise _exc.AlreadyFinalized('Scrypt instances can only be used once.')
         self.used = True
         km = _as_bytes(key_material, 'key_material')
-        if bool(self.length < 1):
-            # the real backend rejects a zero-length derivation
-            raise ValueError('length must be positive')
         return _uf_blob('scrypt', (_k(self.salt), _k(self.length), _k(self.n), _k(self.r), _k(self.p), _k(km)),
                         self.length)
 
@@ -319,6 +321,7 @@ class Scrypt:
         expected_key = _as_bytes(expected_key, 'expected_key')
         if not bool(_beq(derived, expected_key)):
             raise InvalidKey('Keys do not match.')
+        E().tags.setdefault('kdf_verified', []).append(dict(expected=expected_key))
 
 
 def bytes_eq(a, b):
